@@ -17,6 +17,15 @@ P = {
              "orders and every accessor the builders/converters return are recorded from the code and judged by the trace spec.",
         tech="TLC exhaustive model checking of DeBruijn.tla + spec->code replay of exported tables + code->spec trace validation",
         ref="5/C13"),
+    "C07": dict(
+        spec="VT, MC_VT, Trace_VT",
+        text="The documented check (VTDoc, by digit extraction) and the code's formula are both in the specification; TLC checks "
+             "length, agreement, definedness on the empty strand and that every single substitution / C,G,T indel changes the "
+             "check for every strand up to 6 (8) x n up to 4 (5); set_vt is compared with every exported value, decode on a "
+             "complete graph must reject every exported neighbour under the original check; seeded strands to 400 nt with n up "
+             "to 64 and their edits are recorded from the code and judged by the trace spec.",
+        tech="TLC model checking of VT.tla + exhaustive replay into set_vt/decode + trace validation of long strands",
+        ref="5/C07"),
     "C15": dict(
         spec="Bignum, MC_Bignum, Trace_Bignum, Ind_Mul, Ind_Div, Ind_Add",
         text="The four decimal-string helpers are transcribed as digit-serial machines shaped like the code; TLC steps them one "
